@@ -370,6 +370,10 @@ def commit_oracle(trace):
         if exp != seg['after']:
             bad.append({'kind': 'failed-session-committed' if failed else 'commit-not-exact', 'segment': i, 'thread': seg['t'],
                         'res': seg['res'], 'before': seg['before'], 'after': seg['after'], 'expected': exp})
+        # "otherwise the session fails": an UPDATE of an optimistic session that matched no row must raise
+        refused = [e for e in seg['events'] if e['stmt'] == 'UPDATE' and e['rowcount'] == 0]
+        if refused and seg['res'] != 'OptimisticCheckError':
+            bad.append({'kind': 'refused-update-not-raised', 'segment': i, 'thread': seg['t'], 'res': seg['res'], 'update': refused[0]})
     return bad
 
 
@@ -464,6 +468,8 @@ def template_cases(rng, limit):
     pairs.append(([G, wr(0, 52), C], [G, wr(0, 62), C]))                               # blind writes
     pairs.append(([GU, rd(0), wr(0, 53), C], [G, rd(0), wr(0, 63), C]))                # locked for update
     pairs.append(([G, rd(0), K, wr(0, 54), C], [G, rd(0), wr(0, 64), C]))              # second transaction of a session
+    pairs.append(([GU, rd(0), K, wr(1, 57), C], [G, wr(0, 67), C]))                    # the for_update exemption ends at commit
+    pairs.append(([G, rd(0), {'k': 'fetch', 'o': 1, 'as': [0, 1]}, wr(1, 58), C], [G, wr(0, 68), C]))   # re-fetch of a read attribute
     pairs.append(([G, rd(0), wr(1, 55), F, wr(7, 56), C], [G, rd(1), wr(0, 65), C]))   # two flushes in one transaction
     for p0, p1 in pairs:
         l0, l1 = len(p0), len(p1)
@@ -540,7 +546,8 @@ def run_cases(ctx, env, cases, label):
             what = {'stale-read': 'an UPDATE was applied although an attribute the session had read (and not overwritten) was changed by another committed transaction',
                     'lost-update': 'lost update: an UPDATE was applied on top of a committed change to the attribute that the session had read before overwriting it',
                     'failed-session-committed': 'a session that failed with an optimistic-check / repeatable-read error changed the committed rows',
-                    'commit-not-exact': 'the committed rows changed other than by the UPDATEs of the committing transaction'}[v0['kind']]
+                    'commit-not-exact': 'the committed rows changed other than by the UPDATEs of the committing transaction',
+                    'refused-update-not-raised': 'an optimistic UPDATE matched no row (a read attribute was changed underneath) but the session did not fail with OptimisticCheckError'}[v0['kind']]
             ctx.violation(what, canon_case(small), observed=v0, expected='the UPDATE is refused (OptimisticCheckError) and nothing is committed',
                           key='%s:%s' % (v0['kind'], v0.get('attr_kind', '-')))
         if mout is not None:
